@@ -110,6 +110,36 @@ Theorem C01_optional_call_keeps_receiver : forall c lo hi cx callee args targs s
 Proof. exact optional_call_keeps_receiver. Qed.
 Print Assumptions C01_optional_call_keeps_receiver.
 
+(** ** The object of a compound-assignment target is read before its key (finding 17m, repaired in 12287b8).
+    When the computed key of [o[k] += e] goes into a temporary, the object -- an identifier and [this] included, a
+    literal excepted -- is captured first: the two assignments come in this order after whatever was there, and what
+    is left of the target reads both from their temporaries.  When the key stays, an identifier object stays. *)
+From IastRw Require Import P_Hoist.
+Theorem C01_hoisted_key_captures_object : forall c lo hi obj prop span a p t' a' p',
+  hoist_member c (Node (K KMember lo hi) [obj; prop]) span a p = Some (t', a', p') ->
+  key_hoisted prop = true -> Ast.is_lit obj = false ->
+  exists to tk klo khi key,
+    prop = Node (K KComputed klo khi) [key] /\
+    t' = Node (K KMember lo hi) [mk_ident DUMMY to; Node (K KComputed klo khi) [mk_ident DUMMY tk]] /\
+    a_assigns a' = (a_assigns a ++ [mk_assign span "=" (mk_binding_ident DUMMY to) (assign_right obj IKExpr);
+                                    mk_assign span "=" (mk_binding_ident DUMMY tk) (assign_right key IKExpr)])%list.
+Proof. exact hoisted_key_captures_object. Qed.
+Print Assumptions C01_hoisted_key_captures_object.
+
+Theorem C01_plain_target_is_left_alone : forall c lo hi obj prop span a p,
+  key_hoisted prop = false -> (is_ident obj || is_kind KThis obj) = true ->
+  hoist_member c (Node (K KMember lo hi) [obj; prop]) span a p = Some (Node (K KMember lo hi) [obj; prop], a, p).
+Proof. exact plain_target_is_left_alone. Qed.
+Print Assumptions C01_plain_target_is_left_alone.
+
+(** Both premises are met by [a[f()] += x] (the witness of the finding): the key is a call. *)
+Example C01_hoisted_key_example :
+  let a := mk_ident (1, 2)%N "a" in
+  let key := mk KCall (3, 6)%N [ctxt0; mk_ident (3, 4)%N "f"; nL []; nNul] in
+  key_hoisted (mk KComputed (2, 7)%N [key]) = true /\ Ast.is_lit a = false /\
+  key_hoisted (mk KComputed (2, 5)%N [mk_ident (3, 4)%N "k"]) = false.
+Proof. repeat split; reflexivity. Qed.
+
 (** The three callee forms that are recognised, and the one that is not (open finding 21d). *)
 Example C01_optional_call_callees :
   let m := mk_member (1, 4)%N (mk_ident (1, 2)%N "o") (mk_ident_name (3, 4)%N "m") in
